@@ -234,6 +234,7 @@ Fixpoint seq_loop (fuel : nat) (cf : cfg) (st : pst) (c : ch) (it : iter) (resul
             end
           else if N.eqb c cSL then (if c_pathname cf then Stop else Ok ([c], it0))
           else if ch_in c set_operators then Ok ([cBS; c], it0)
+          else if N.eqb c 35 then Ok ([cBS; c], it0)   (* `#`: never lets a literal `(?#)` through *)
           else Ok ([c], it0) in
         match vres with
         | Stop => Stop | Fuel => Fuel
